@@ -52,6 +52,9 @@ def generate(seed, tier):
             name, mod = 'C04', C04
             sub = mod.generate(g.int(0, 1 << 60), tier)
             scn = copy.deepcopy(sub['scn'])
+    for op in scn['actors'][0] + scn.get('post', []):
+        if op['op'] == 'push' and not op.get('mtime'):
+            op['mtime'] = 4321      # 'now' is not comparable between two runs
     for op in scn['actors'][0]:
         if op.get('cb') == 'reenter':
             op['cb'] = 'count'      # the re-entrant callback is a sync-only scenario (a plain function cannot await)
